@@ -146,11 +146,36 @@ def isHexFloat (s : Bytes) : Bool :=
     else false
   | _ => false
 
+/-- Go `strconv.lexUnderscoreOK`: underscores only between digits, or between a base prefix and a
+    digit.  `saw`: 0 = start, 1 = digit or base prefix, 2 = underscore, 3 = anything else. -/
+def lexUnderscoreLoop (hex : Bool) : Nat → Bytes → Bool
+  | saw, [] => saw != 2
+  | saw, c :: rest =>
+    if isDigit c || (hex && isHexDigit c) then lexUnderscoreLoop hex 1 rest
+    else if c == 95 then (if saw != 1 then false else lexUnderscoreLoop hex 2 rest)
+    else if saw == 2 then false
+    else lexUnderscoreLoop hex 3 rest
+
+def lexUnderscoreOK (s : Bytes) : Bool :=
+  let r := match s with
+    | 43 :: r => r
+    | 45 :: r => r
+    | r => r
+  match r with
+  | 48 :: x :: t =>
+    let lx := lowerByte x
+    if lx == 98 || lx == 111 || lx == 120 then lexUnderscoreLoop (lx == 120) 1 t
+    else lexUnderscoreLoop false 0 r
+  | _ => lexUnderscoreLoop false 0 r
+
 /-- does `strconv.ParseFloat(s, 64)` succeed?  (syntax; decimal overflow to ±Inf is
     an error in Go: we treat a decimal magnitude ≥ 10^310 as overflow and
     < 10^300 as in range — inputs in between are outside the modelled domain) -/
-def parseFloatOk (s : Bytes) : Bool :=
-  if isSpecialFloat s || isHexFloat s then true
+def parseFloatOk (s0 : Bytes) : Bool :=
+  -- `readFloat` skips underscores and validates them afterwards with `lexUnderscoreOK`
+  if s0.contains 95 && !lexUnderscoreOK s0 then false else
+  let s := s0.filter (· != 95)
+  if isSpecialFloat s0 || isHexFloat s then true
   else match splitDecimal s with
     | none => false
     | some (_, mant, fracDigits, e) =>
